@@ -5,9 +5,14 @@
     default configuration (priority plugin, elastic plugin, creation time, UID).
     The heap is Go's container/heap over a slice, modelled operation by
     operation and proved here (it is not an oracle). The queue order function
-    [qord] (proportion plugin) and the placement oracle [attempt] are arbitrary. *)
+    [qord] (proportion plugin) and the placement oracle [attempt] are arbitrary.
+    The capacity gate that allocate asks before it tries to place a popped job
+    (proportion's capacity policy: queue limits, non-preemptible quota) is
+    modelled in Model/QuotaGate.v; statements (7)-(9) are about it, proofs in
+    Proofs/JobOrderGate.v. *)
 From Coq Require Import List ZArith Bool Permutation.
-From KaiV Require Import Model.JobOrder Model.JobOrderSpec Proofs.JobOrder.
+From KaiV Require Import Model.JobOrder Model.JobOrderSpec Model.QuotaGate Model.QuotaGateSpec
+     Proofs.JobOrder Proofs.JobOrderGate.
 Import ListNotations.
 Open Scope Z_scope.
 
@@ -229,3 +234,104 @@ Theorem C16_nonvacuous :
      = Ok [(ex_a, true); (progressed ex_a, false); (ex_c, false)].
 Proof. exact nonvacuous_proof. Qed.
 Print Assumptions C16_nonvacuous.
+
+(** (7) The capacity gate does not read the priority. [job_over_queue_capacity] is
+    Session.IsJobOverQueueCapacityFn (what common.AllocateJob asks) and
+    [np_job_over_quota] is Session.IsNonPreemptibleJobOverQueueQuotaFn, with
+    PodGroupInfo.IsPreemptibleJob as it is: their verdict is a function of the
+    queue state, the job's queue, what its pods ask for and its preemptibility;
+    two jobs that agree on these get the same verdict whatever their priority,
+    age, UID or progress - in particular changing only the priority of a job
+    changes no verdict. *)
+Theorem C16_gate_independent_of_priority :
+  gate_independent_of_priority job_over_queue_capacity /\ gate_independent_of_priority np_job_over_quota.
+Proof. exact gate_independent_of_priority_proof. Qed.
+Print Assumptions C16_gate_independent_of_priority.
+
+Theorem C16_gate_ignores_priority :
+  forall st j p, job_over_queue_capacity st (with_prio j p) = job_over_queue_capacity st j
+                 /\ np_job_over_quota st (with_prio j p) = np_job_over_quota st j.
+Proof. exact gate_ignores_priority_proof. Qed.
+Print Assumptions C16_gate_ignores_priority.
+
+(** More usage in the queues never turns a refusal into an admission (for any
+    reading of the preemptibility), and accounting an allocation with
+    non-negative requests only adds usage: during the allocate action the gate
+    can only close. *)
+Theorem C16_gate_antitone :
+  forall ispre : job -> bool, gate_antitone (job_over_queue_capacity_with ispre).
+Proof. exact gate_with_antitone. Qed.
+Print Assumptions C16_gate_antitone.
+
+Theorem C16_accounting_only_adds_usage :
+  forall (ispre : job -> bool) st j st',
+    Forall (fun r => 0 <= r) (j_req j) -> account ispre st j = Ok st' -> qstate_le st st'.
+Proof. exact account_le_proof. Qed.
+Print Assumptions C16_accounting_only_adds_usage.
+
+(** (8) The property with the gate made explicit, for every MaxJobsQueueDepth: the
+    attempt of the allocate loop is "ask the gate [G] on the queue usage of the
+    moment, then try to place". For EVERY gate that does not read the priority
+    and that only closes as usage grows, any hierarchy, queue order function,
+    pending jobs with distinct UIDs, session state whose queue usage only grows
+    while capacity shrinks, and placement oracle that is monotone, equal on the
+    two jobs and pushes back the job it was given: of two identical workloads of
+    one leaf queue (same queue, shape, request and preemptibility) the one the
+    chain orders first (higher priority, then older) is placed whenever the other
+    one is. *)
+Theorem C16_decision_from_gate_independence :
+  forall G : gate, gate_independent_of_priority G -> gate_antitone G -> C16_gated_stmt G.
+Proof. exact gated_decision_proof. Qed.
+Print Assumptions C16_decision_from_gate_independence.
+
+(** ... hence for the modelled gate, without any hypothesis on it. *)
+Theorem C16 : C16_gated_stmt job_over_queue_capacity.
+Proof. exact gated_decision_capacity_gate_proof. Qed.
+Print Assumptions C16.
+
+(** (9) Non-vacuity of (8), and what happens when the gate reads the priority.
+    One leaf queue with a quota of one GPU that a non-preemptible allocation has
+    taken, one GPU free; [gw_a] (priority 125) and [gw_b] (priority 50) are
+    identical one-GPU workloads whose pod groups say "preemptible"; the placement
+    oracle [gw_place] (place when the GPUs are free, account the usage) meets every
+    hypothesis of (8) for any reading of the preemptibility. With the modelled
+    gate the loop places [gw_a] and not [gw_b]. [gate_below_build] is the same gate
+    with IsPreemptibleJob replaced by "preemptible and priority < 100"
+    ([is_preemptible_job_below_build]; not in the code): it still only closes as
+    usage grows, but it reads the priority - it refuses [gw_a]
+    (NonPreemptibleOverQuota) and admits [gw_b] on the same state - the loop places
+    [gw_b] and leaves [gw_a] unplaced, so (8) fails for it. *)
+Theorem C16_gate_reading_priority_refuted :
+  (forall ispre,
+      (forall c, gw_cle c c)
+      /\ (forall c1 c2 c3, gw_cle c1 c2 -> gw_cle c2 c3 -> gw_cle c1 c3)
+      /\ (forall j c c' r, gw_place ispre j c = Some (c', r) -> gw_cle c' c)
+      /\ (forall c c', gw_cle c' c -> qstate_le (fst c) (fst c'))
+      /\ (forall c c', gw_cle c' c -> fits (gw_place ispre) gw_a c' = true -> fits (gw_place ispre) gw_a c = true)
+      /\ (forall c, fits (gw_place ispre) gw_a c = fits (gw_place ispre) gw_b c)
+      /\ repush_same_job (gw_place ispre))
+  /\ same_workload gw_a gw_b /\ job_less gw_a gw_b = true
+  /\ NoDup (map j_uid [gw_b; gw_a]) /\ queue_ok w_qs (j_queue gw_a) = true
+  /\ allocate w_qs w_qord (-1) (gated_attempt job_over_queue_capacity fst (gw_place is_preemptible_job)) 10
+              [gw_b; gw_a] (gw_st, 1000)
+     = Ok [(gw_a, true); (gw_b, false)]
+  /\ allocate w_qs w_qord (-1) (gated_attempt gate_below_build fst (gw_place is_preemptible_job_below_build)) 10
+              [gw_b; gw_a] (gw_st, 1000)
+     = Ok [(gw_a, false); (gw_b, true)]
+  /\ gate_antitone gate_below_build
+  /\ ~ gate_independent_of_priority gate_below_build
+  /\ ~ C16_gated_stmt gate_below_build.
+Proof. exact gated_nonvacuous_and_refuted. Qed.
+Print Assumptions C16_gate_reading_priority_refuted.
+
+(** the verdicts on the witness state *)
+Theorem C16_gate_reading_priority_witness :
+  gate_below_build gw_st gw_a = Ok NonPreemptibleOverQuota
+  /\ gate_below_build gw_st gw_b = Ok Schedulable
+  /\ job_over_queue_capacity gw_st gw_a = Ok Schedulable
+  /\ job_over_queue_capacity gw_st gw_b = Ok Schedulable
+  /\ calculate_preemptibility PPreemptible 125 = PPreemptible
+  /\ calculate_preemptibility PUnset 125 = PNonPreemptible
+  /\ calculate_preemptibility PUnset 99 = PPreemptible.
+Proof. exact gate_witness_proof. Qed.
+Print Assumptions C16_gate_reading_priority_witness.
